@@ -29,6 +29,51 @@ def all_blocks(sc, cname):
     return [b for b in base if b["name"] not in names] + own
 
 
+def obj_prefixes(sc, cname, prefix=()):
+    """attribute path of every composite object below an object of class cname, in pre-order (= the object ids of Lits.world)"""
+    out = [tuple(prefix)]
+    for f in all_fields(sc, cname):
+        if f["kind"] == "obj":
+            out += obj_prefixes(sc, f["cls"], tuple(prefix) + (f["name"],))
+    return out
+
+
+def class_at_path(sc, cname, path):
+    for n in path:
+        cname = next(f for f in all_fields(sc, cname) if f["name"] == n)["cls"]
+    return cname
+
+
+def hook_actions(sc, cname, which):
+    """the actions of the most-derived definition of the callback (None: no class of the hierarchy defines it)"""
+    c = next(c for c in sc["classes"] if c["name"] == cname)
+    if c.get(which) is not None:
+        return c[which]
+    return hook_actions(sc, c["base"], which) if c.get("base") else None
+
+
+def apply_pre_hooks(sc, lits, raw_before, hooks):
+    """the values the solve starts from: the values before the call with the assignments of the pre_randomize callbacks that
+    ran (in the order they ran) applied. Returns (values, expected snapshot per hook entry or None)"""
+    vals = list(raw_before)
+    prefixes = obj_prefixes(sc, lits.root_cls)
+    expect = []
+    for oid, which, snap in hooks:
+        if not (0 <= oid < len(prefixes)):
+            expect.append(None)
+            continue
+        pre = prefixes[oid]
+        idxs = [i for p, i in sorted(lits.ids.items(), key=lambda x: x[1]) if p[:len(pre)] == pre]
+        if which != "pre_randomize":
+            expect.append((which, idxs, None))
+            continue
+        expect.append((which, idxs, [vals[i] for i in idxs]))
+        for a in hook_actions(sc, class_at_path(sc, lits.root_cls, pre), which) or []:
+            if a[0] == "set":
+                vals[lits.ids[pre + tuple(a[1])]] = a[2]
+    return vals, expect
+
+
 def leaves_of(sc, cname, prefix=()):
     """(path, decl) of every scalar / enum leaf below an object of class cname, in declaration order"""
     out = []
@@ -86,6 +131,13 @@ class Lits(object):
             return "(ENot %s)" % self.expr(e[1])
         if k == "dynref":
             return "(dyn_ref %s)" % self.dyn_block(e[1], e[2])
+        if k in ("inrl", "notinrl"):
+            # a rangelist object of the root: its content at the time of the call, in the order the object holds it
+            items = []
+            for it in self.state.get("rl", {}).get(e[2], rl_initial(self.sc, self.root_cls, e[2])):
+                items.append("(%s, None)" % self.expr(it[0]) if len(it) == 1 else "(%s, Some %s)" % (self.expr(it[0]), self.expr(it[1])))
+            r = "(e_in %s %s)" % (self.expr(e[1]), clist(items))
+            return r if k == "inrl" else "(ENot %s)" % r
         if k in ("in", "notin"):
             items = []
             for it in reversed(e[2]):          # rangelist stores its arguments last to first
@@ -214,6 +266,15 @@ class Lits(object):
         return "(WObj %s %s %d%%nat %s %s)" % (cbool(decl_rand), cbool(mode), oid, clist(blocks), clist(kids))
 
 
+def free_world(lits, free):
+    """a free-standing vsc.randomize(...) / vsc.randomize_with(...) over the leaves `free`: exactly the passed fields are random
+    (randomizer.py do_randomize: set_used_rand(True, 0) on what is passed), every other field the constraints refer to is a
+    constant of its current value, no class constraint block and no callback takes part"""
+    passed = {tuple(p) for p in free}
+    kids = ["(WLeaf %s %s %d%%nat)" % (cbool(p in passed), cbool(p in passed), i) for p, i in sorted(lits.ids.items(), key=lambda x: x[1])]
+    return "(WObj true true 1999%%nat [] %s)" % clist(kids)
+
+
 def term_lit(t):
     k = t[0]
     if k == "fvar":
@@ -262,7 +323,11 @@ def type_range(w, sg):
 class Gen(object):
     """random scenarios: a root class with scalar / enum fields and optional sub-objects (tree of classes)"""
 
-    def __init__(self, rnd, small=True, tree=False, hist=False, ninst=1, soft_bias=False):
+    def __init__(self, rnd, small=True, tree=False, hist=False, ninst=1, soft_bias=False, free=False, rls=False):
+        self.hooks = False        # pre_randomize callbacks that assign fields; classes deriving from a decorated base
+        self.free = free          # free-standing vsc.randomize(...) / vsc.randomize_with(...) over some leaves
+        self.rls = rls            # rangelist objects of the root, edited between calls
+        self.rl_names = []
         self.ninst = ninst
         self.soft_bias = soft_bias
         self.rnd = rnd
@@ -320,16 +385,38 @@ class Gen(object):
                 self.nfield += 1
         return c
 
+    def add_hooks(self):
+        """pre_randomize assigns some of the object's own scalar fields (mostly the non-random ones); some classes are split
+        into a decorated base without callbacks and a derived class that introduces them"""
+        rnd = self.rnd
+        for c in list(self.classes):
+            own = [f for f in c["fields"] if f["kind"] == "scalar"]
+            acts = []
+            for f in own:
+                if rnd.random() < (0.6 if not f["rand"] else 0.15):
+                    lo, hi = type_range(f["w"], f["sg"])
+                    acts.append(["set", [f["name"]], rnd.randint(lo, hi)])
+            c["pre_randomize"] = acts
+            if rnd.random() < 0.3 and len(c["fields"]) >= 2:
+                k = rnd.randint(1, len(c["fields"]) - 1)
+                base = {"name": c["name"] + "B", "fields": c["fields"][:k], "blocks": [], "pre_randomize": None, "post_randomize": None}
+                c["fields"] = c["fields"][k:]
+                c["base"] = base["name"]
+                self.classes.insert(self.classes.index(c) + 1, base)     # (the list is reversed later: bases are defined first)
+
     def fill_blocks(self, softs):
         rnd = self.rnd
         sc = {"classes": self.classes, "enums": self.enums}
+        all_rl = self.rl_names
         for c in self.classes:
             self.fs = [(list(p), f) for p, f in leaves_of(sc, c["name"])]
             if not self.fs:
                 continue
+            self.rl_names = all_rl if c is self.classes[0] else []       # rangelists belong to the root object
             nb = rnd.choice([1, 1, 2])
             c["blocks"] = [{"name": "c%d" % i, "stmts": [self.stmt(2, softs) for _ in range(rnd.randint(1, 3))]}
                            for i in range(nb)]
+        self.rl_names = all_rl
 
     # ---- expressions
     def lit_for(self, f):
@@ -394,6 +481,11 @@ class Gen(object):
                 else:
                     items.append([a])
             return [rnd.choice(["in", "in", "notin"]), ["f", path], items]
+        if self.rl_names and r < 0.40:
+            cand = [(p, f) for p, f in self.fs if f["kind"] == "scalar"]
+            if cand:
+                path, f = rnd.choice(cand)
+                return [rnd.choice(["inrl", "inrl", "notinrl"]), ["f", path], rnd.choice(self.rl_names)]
         l, fl = self.operand(depth, True)
         op = rnd.choice(OPS_REL)
         if rnd.random() < 0.5:
@@ -434,7 +526,7 @@ class Gen(object):
                 return ["implies", self.relation(1), body]
             return self.soft_stmt()
         if depth > 0 and r < 0.16:
-            elifs = [[self.condition(1), self.stmt_list(depth - 1, 1, 2)] for _ in range(rnd.choice([0, 0, 1, 2]))]
+            elifs = [[self.condition(1), self.stmt_list(depth - 1, 1, 2)] for _ in range(rnd.choice([0, 0, 1, 2, 3, 4]))]
             els = self.stmt_list(depth - 1, 1, 2) if rnd.random() < 0.5 else None
             return ["if", self.condition(1), self.stmt_list(depth - 1, 1, 2), elifs, els]
         if depth > 0 and r < 0.26:
@@ -457,6 +549,17 @@ class Gen(object):
         leaves = leaves_of(sc, root["name"])
         if not any(f["rand"] for _, f in leaves):
             leaves[0][1]["rand"] = True
+        if self.hooks:
+            self.add_hooks()
+            sc["classes"] = list(reversed(self.classes))
+        if self.rls:
+            # rangelists live in the root object; their items are Python integers / pairs around the fields' values
+            scal = [f for _, f in leaves if f["kind"] == "scalar"]
+            for k in range(rnd.randint(1, 2)):
+                f = rnd.choice(scal) if scal else {"w": 3, "sg": False}
+                root.setdefault("rangelists", {})["rl%d" % k] = [self.rl_item(f) for _ in range(rnd.randint(1, 3))]
+            self.rl_names = sorted(root["rangelists"])
+            self.rl_field = scal
         self.fill_blocks(softs)
         names = ["o"] if self.ninst == 1 else ["o%d" % i for i in range(self.ninst)]
         ops = [{"op": "new", "var": names[0], "cls": root["name"]}]
@@ -484,11 +587,35 @@ class Gen(object):
                     ops.append({"op": "cmode", "var": v, "path": list(op_), "block": rnd.choice(blocks)["name"],
                                 "on": rnd.random() < 0.4})
             v2 = rnd.choice(names[:created])
-            inline = [self.stmt(1, softs) for _ in range(rnd.randint(1, 2))] if rnd.random() < 0.4 else None
-            ops.append({"op": "randomize", "var": v2, "inline": inline})
+            if self.rl_names and rnd.random() < 0.6:
+                name = rnd.choice(self.rl_names)
+                f = rnd.choice(self.rl_field) if self.rl_field else {"w": 3, "sg": False}
+                r = rnd.random()
+                if r < 0.5:
+                    ops.append({"op": "rl_append", "var": v2, "rl": name, "items": [self.rl_item(f)]})
+                elif r < 0.7:
+                    ops.append({"op": "rl_extend", "var": v2, "rl": name, "items": [self.rl_item(f) for _ in range(rnd.randint(1, 2))]})
+                else:
+                    ops.append({"op": "rl_clear", "var": v2, "rl": name, "items": []})
+                    if rnd.random() < 0.7:
+                        ops.append({"op": "rl_extend", "var": v2, "rl": name, "items": [self.rl_item(f) for _ in range(rnd.randint(1, 2))]})
+            inline = [self.stmt(1, softs) for _ in range(rnd.randint(1, 2))] if rnd.random() < (0.75 if self.free else 0.4) else None
+            call = {"op": "randomize", "var": v2, "inline": inline}
+            if self.free and rnd.random() < 0.5:
+                cand = [list(p) for p, f in leaves]
+                call["free"] = rnd.sample(cand, rnd.randint(1, min(3, len(cand))))
+            ops.append(call)
         sc["ops"] = ops
         sc["root_cls"] = root["name"]
         return sc
+
+    def rl_item(self, f):
+        rnd = self.rnd
+        lo, hi = type_range(f["w"], f["sg"])
+        a = rnd.randint(lo, hi)
+        if rnd.random() < 0.45:
+            return [["lit", a], ["lit", a + rnd.randint(0, 3)]]
+        return [["lit", a]]
 
     def obj_paths(self, sc, cname, prefix=()):
         out = []
@@ -506,9 +633,15 @@ class Gen(object):
         return cname
 
 
+def rl_initial(sc, root_cls, name):
+    """content of a rangelist after construction: the constructor stores its arguments last to first"""
+    c = next(c for c in sc["classes"] if c["name"] == root_cls)
+    return list(reversed(c["rangelists"][name]))
+
+
 def track_state(sc, upto):
-    """rand_mode / constraint_mode flags of the object of op number `upto`, as in force before it"""
-    st = {"rand_mode": {}, "cmode": {}}
+    """rand_mode / constraint_mode flags and rangelist contents of the object of op number `upto`, as in force before it"""
+    st = {"rand_mode": {}, "cmode": {}, "rl": {}}
     var = sc["ops"][upto]["var"]
     for op in sc["ops"][:upto]:
         if op.get("var") != var:
@@ -517,6 +650,12 @@ def track_state(sc, upto):
             st["rand_mode"][tuple(op["path"])] = bool(op["on"])
         elif op["op"] == "cmode":
             st["cmode"][(tuple(op.get("path", [])), op["block"])] = bool(op["on"])
+        elif op["op"] in ("rl_append", "rl_extend", "rl_clear"):
+            cur = st["rl"].setdefault(op["rl"], rl_initial(sc, sc["root_cls"], op["rl"]))
+            if op["op"] == "rl_clear":
+                del cur[:]
+            else:
+                cur.extend(op["items"])
     return st
 
 
@@ -558,7 +697,8 @@ def used_ids(log, kind):
 def case_literal(sc, opi, res, lits):
     """Coq literal `mkSC ...` for the randomize op number opi of scenario sc with observation res"""
     op = sc["ops"][opi]
-    before = lits.values(res["before"])
+    # what pre_randomize assigns is what the solver must see (and what non-random fields must keep)
+    before = lits.values(apply_pre_hooks(sc, lits, res["before"], res["hooks"])[0]) if hasattr(lits, "ids") else lits.values(res["before"])
     after = lits.values(res["values"])
     # 3 = ZeroDivisionError: a constant sub-expression divides by zero, which the specification leaves undefined
     outcome = 0 if res["outcome"] == "ok" else (1 if res["outcome"] == "SolveFailure" else
@@ -571,7 +711,8 @@ def case_literal(sc, opi, res, lits):
     doms = clist([copt(res.get("domains", {}).get(str(i)), lambda d: clist([cpair(cz(a), cz(b)) for a, b in d]))
                   for i in range(len(lits.fields))])
     return "(mkSC %s %s [%s] %s %s %s %s %s %s %s %s %s %s %s)" % (
-        lits.fenv(), lits.enum_doms(), lits.world(), lits.stmts(op.get("inline") or []),
+        lits.fenv(), lits.enum_doms(), free_world(lits, op["free"]) if op.get("free") is not None else lits.world(),
+        lits.stmts(op.get("inline") or []),
         clist([cz(v) for v in before]), cz(outcome), clist([cz(v) for v in after]), terms,
         nl(used_ids(res["log"], "fvar")), nl(used_ids(res["log"], "fconst")), nl(pre), nl(post), batches, doms)
 
